@@ -214,12 +214,14 @@ def check_hash(case, ctx):
         raise Violation("C05/hash/hash160", "hash160 of %d bytes = %r, expected %s" % (n, got, want.hex()))
     # a caller that reuses one mutable buffer
     if n >= 1:
-        buf = bytearray(x)
+        buf = bytearray(b"\xa5" + x)            # contents not hashed before in this process
+        first = hashes.hash160(bytes(buf))
         st_, h1 = call(helper.hash160, buf)
         if st_ == "ok":
             buf[0] ^= 0xFF
+            buf[-1] ^= 0x01
             st_, h2 = call(helper.hash160, buf)
-            if st_ == "exc" or h1 != want or h2 != hashes.hash160(bytes(buf)):
+            if st_ == "exc" or h1 != first or h2 != hashes.hash160(bytes(buf)):
                 raise Violation("C05/hash/hash160-reused-buffer", "hash160 of a reused bytearray (%d bytes) after it was "
                                 "modified returned the digest of other contents" % n)
         else:
